@@ -50,6 +50,9 @@ func main() {
 		runChainProfile(profileSpec{name: "pnft", gen: genPnftHistory, monitors: func() []Monitor { return []Monitor{newPnftMonitor(), &feeMonitor{}} }}, *seed, *n, *out, *replay, *blocks)
 	case "upgrade":
 		runChainProfile(profileSpec{name: "upgrade", gen: genUpgradeHistory, monitors: func() []Monitor { return nil }, node: true}, *seed, *n, *out, *replay, *blocks)
+	case "sign":
+		nn := *n
+		runChainProfile(profileSpec{name: "sign", gen: func(r *RNG, _ int) []string { return genSignCases(r, nn > 1) }, monitors: func() []Monitor { return nil }}, *seed, 1, *out, *replay, 0)
 	case "conc":
 		runConc(*seed, *n, *out)
 	case "node":
